@@ -1321,9 +1321,13 @@ package client
 //@   ensures [C19] dom(conn.supportedCaps.caps) === old(dom(conn.supportedCaps.caps)) && vals(conn.supportedCaps.caps) === old(vals(conn.supportedCaps.caps))
 //@   ensures [C19] len(caps) == 1 && minusName(caps[0]) ==> dom(conn.currCaps.caps) === setadd(old(dom(conn.currCaps.caps)), caps[0][1:]) && vals(conn.currCaps.caps) === upd(old(vals(conn.currCaps.caps)), caps[0][1:], false)
 //@   ensures [C19] len(caps) == 1 && !minusName(caps[0]) ==> dom(conn.currCaps.caps) === setadd(old(dom(conn.currCaps.caps)), caps[0]) && vals(conn.currCaps.caps) === upd(old(vals(conn.currCaps.caps)), caps[0], true)
+// every acknowledged name is recorded, the last one last (so its word stands)
+//@   ensures [C19] len(caps) >= 1 && !minusName(caps[len(caps)-1]) ==> has(conn.currCaps.caps, caps[len(caps)-1]) && conn.currCaps.caps[caps[len(caps)-1]]
+//@   ensures [C19] len(caps) >= 1 && minusName(caps[len(caps)-1]) ==> has(conn.currCaps.caps, caps[len(caps)-1][1:]) && !conn.currCaps.caps[caps[len(caps)-1][1:]]
 //@   ensures [C19] old($trlen) < $trlen
-//@   ensures [C19] (noSends($tr, old($trlen), $trlen - 1) && sendsExactly($tr, $trlen - 1, conn.out, "CAP " + "END"))
-//@        || (authOnly($tr, old($trlen), $trlen, conn.out) && conn.cfg.Sasl != nil && has(sidset(caps), "sasl") && (exists k int :: old($trlen) <= k && k < $trlen && $tr[k].kind == kindof("send")))
+// gotSasl: an AUTHENTICATE <mechanism> went out (SASL configured, "sasl" acknowledged, the mechanism started)
+//@   ensures [C19] !gotSasl ==> noSends($tr, old($trlen), $trlen - 1) && sendsExactly($tr, $trlen - 1, conn.out, "CAP " + "END")
+//@   ensures [C19] gotSasl ==> authOnly($tr, old($trlen), $trlen, conn.out) && conn.cfg.Sasl != nil && has(sidset(caps), "sasl") && (exists k int :: old($trlen) <= k && k < $trlen && $tr[k].kind == kindof("send"))
 //@   ensures [C19] (conn.cfg.Sasl == nil || !has(sidset(caps), "sasl")) ==> noSends($tr, old($trlen), $trlen - 1) && sendsExactly($tr, $trlen - 1, conn.out, "CAP " + "END")
 //@   loop 0:
 //@     invariant capsOK(conn) && $held === old($held) && conn.currCaps == old(conn.currCaps) && conn.currCaps.caps == old(conn.currCaps.caps) && conn.cfg == old(conn.cfg) && conn.cfg.Sasl == old(conn.cfg.Sasl) && conn.out == old(conn.out)
@@ -1332,6 +1336,8 @@ package client
 //@     invariant [C19] #i == 0 ==> dom(conn.currCaps.caps) === old(dom(conn.currCaps.caps)) && vals(conn.currCaps.caps) === old(vals(conn.currCaps.caps))
 //@     invariant [C19] #i == 1 && minusName(caps[0]) ==> dom(conn.currCaps.caps) === setadd(old(dom(conn.currCaps.caps)), caps[0][1:]) && vals(conn.currCaps.caps) === upd(old(vals(conn.currCaps.caps)), caps[0][1:], false)
 //@     invariant [C19] #i == 1 && !minusName(caps[0]) ==> dom(conn.currCaps.caps) === setadd(old(dom(conn.currCaps.caps)), caps[0]) && vals(conn.currCaps.caps) === upd(old(vals(conn.currCaps.caps)), caps[0], true)
+//@     invariant [C19] #i >= 1 && !minusName(caps[#i-1]) ==> has(conn.currCaps.caps, caps[#i-1]) && conn.currCaps.caps[caps[#i-1]]
+//@     invariant [C19] #i >= 1 && minusName(caps[#i-1]) ==> has(conn.currCaps.caps, caps[#i-1][1:]) && !conn.currCaps.caps[caps[#i-1][1:]]
 //@     invariant [C19] !gotSasl ==> noSends($tr, old($trlen), $trlen)
 //@     invariant [C19] gotSasl ==> authOnly($tr, old($trlen), $trlen, conn.out) && conn.cfg.Sasl != nil && has(sidsetn(caps, #i), "sasl") && (exists k int :: old($trlen) <= k && k < $trlen && $tr[k].kind == kindof("send"))
 //@ end
